@@ -10,7 +10,11 @@
 (*       from the logged ratios and trace profiles and compares every row, the   *)
 (*       layer sums, the fill ratios, the validity verdict and the active /      *)
 (*       inactive split (mu: harness-side relation against the independent       *)
-(*       formula parser, logged as the count badmu).                             *)
+(*       formula parser, logged as the count badmu; badmus = number of public    *)
+(*       SCALAR routes to the mean molecular weight that do not read the         *)
+(*       weighted sum of the surface layer).  The logged trace profiles x are    *)
+(*       the REQUESTED ones where the recipe determines them exactly (a single   *)
+(*       gas may be requested above one in some layers only).                    *)
 (* Stateless stream: the step always advances, rejected events are printed.      *)
 EXTENDS Chemistry, IOUtils, TLCExt
 VARIABLE l
@@ -53,7 +57,7 @@ OkMix(e) ==
         /\ e.invalid = over
         /\ (~over) =>
             /\ Len(e.mix) = ng
-            /\ e.badsum = 0 /\ e.neg = 0 /\ e.badmu = 0
+            /\ e.badsum = 0 /\ e.neg = 0 /\ e.badmu = 0 /\ e.badmus = 0
             /\ \A g \in 1..ng : Len(e.mix[g]) = e.n
             /\ \A g \in 1..ng : \A i \in 1..e.n :
                   /\ e.mix[g][i] >= 0
